@@ -28,6 +28,7 @@ type TxSpec struct {
 	Height int64  `json:"height,omitempty"` // upgrade height
 	// signing
 	Fee     int64  `json:"fee,omitempty"`     // 0 => exactly the required fee under default multiplier 1; -1 => zero fee (empty coins)
+	FeeAbc  int64  `json:"fee_abc,omitempty"` // > 0: the fee additionally carries that many coins of the second denomination "abc"
 	SignBy  int    `json:"sign_by,omitempty"` // 0 => From; otherwise key index+1
 	NoPK    bool   `json:"no_pk,omitempty"`   // omit public key from signature
 	Entropy int64  `json:"entropy,omitempty"` // 0 => assigned by driver
@@ -51,6 +52,9 @@ func (t TxSpec) String() string {
 	}
 	if t.Fee != 0 {
 		s += fmt.Sprintf(",fee=%d", t.Fee)
+	}
+	if t.FeeAbc != 0 {
+		s += fmt.Sprintf(",fee+=%dabc", t.FeeAbc)
 	}
 	return s + ")"
 }
@@ -105,6 +109,9 @@ func Build(t TxSpec) []byte {
 		fee = sdk.NewCoins(sdk.NewCoin(Denom, sdk.NewInt(RequiredFee(msg))))
 	case t.Fee > 0:
 		fee = sdk.NewCoins(sdk.NewCoin(Denom, sdk.NewInt(t.Fee)))
+	}
+	if t.FeeAbc > 0 {
+		fee = fee.Add(sdk.NewCoins(sdk.NewCoin("abc", sdk.NewInt(t.FeeAbc))))
 	}
 	signer := t.From
 	if t.Msg == "unstake_other" || t.Msg == "unjail_other" {
